@@ -431,6 +431,7 @@ func opWalk(op *proto.Op, res *proto.Res) error {
 				queue = append(queue, p.Right)
 			}
 		}
+		t.NoLookups = op.M != 0
 		if op.M == 0 { // point lookups + reverse scan
 			for _, pg := range t.Pages {
 				if !pg.Leaf || pg.Err != "" {
